@@ -12,4 +12,6 @@ MCKs == {0, 1, K, K + 1, MCLen + 1}
 \* a reduced alphabet for longer histories
 MCOffsetsSmall == {0, K + 1, MCLen - 1}
 MCKsSmall == {1, K + 1}
+\* positions exactly on child boundaries
+MCOffsetsBoundary == {K, 2 * K, MCLen}
 =============================================================================
